@@ -379,11 +379,14 @@ func (c *Controller) ShouldGossip(msg *bft.Message) (gossip bool, exit bool) {
 // GossipConsensus() gossips a consensus message through the P2P network for a specific chainId
 func (c *Controller) GossipConsensus(message *bft.Message, senderPubToExclude []byte) {
 	// log the start of the gossip consensus message function
+	// NOTE: the message comes straight from the decoder - a peer may send a leader message whose certificate has no
+	// header (or no header at all): the phase is only used for the log line below, never dereference blindly
 	var phase lib.Phase
-	if message.Qc == nil {
-		phase = message.Header.Phase
-	} else {
+	switch {
+	case message.Qc != nil && message.Qc.Header != nil:
 		phase = message.Qc.Header.Phase
+	case message.Header != nil:
+		phase = message.Header.Phase
 	}
 	c.log.Debugf("Gossiping consensus message: P: %s %s", phase,
 		crypto.HashString([]byte(message.String())))
